@@ -379,7 +379,8 @@ def opt_attr(e) -> Optional[str]:
     """`options.X` / `context.options.X` / `self.options.X` / `transformer.options.X` -> 'X'"""
     if isinstance(e, ast.Attribute):
         v = e.value
-        if isinstance(v, ast.Name) and v.id in ("options",):
+        if isinstance(v, ast.Name) and v.id in ("options", "opts", "option", "opt", "_options"):
+            # the repo's convention for a hoisted `<ctx>.options`
             return e.attr
         if isinstance(v, ast.Attribute) and v.attr in ("options", "__options__"):
             return e.attr
